@@ -83,6 +83,7 @@ type mScene struct {
 	vfunds        []*client.VirtualChannelFundingProposalMsg  // hub-two: M's funding proposals of the two virtual channels
 	realVFund     *client.VirtualChannelFundingProposalMsg    // M's real funding proposal to the hub (intercepted)
 	realVSet      *client.VirtualChannelSettlementProposalMsg // M's real settlement proposal to the hub (intercepted)
+	bobAt         time.Time                                   // virtual time at which B's proposal left for the hub (the hub's 10 s wait starts then)
 	bobSent       bool                                        // B's own funding / settlement proposal is on its way to the hub
 	ownReq        wire.Msg                                    // "~own": the request of the victim itself, as it left the victim
 	threadErrs    []string
@@ -414,6 +415,9 @@ func (sc *mScene) setupHub(base string) error {
 				return false
 			}
 			if w.partyOf(e.Sender) == sc.B.Idx {
+				if !sc.bobSent {
+					sc.bobAt = time.Now()
+				}
 				sc.bobSent = true
 				return quiet
 			}
@@ -425,6 +429,9 @@ func (sc *mScene) setupHub(base string) error {
 			}
 		case *client.VirtualChannelSettlementProposalMsg:
 			if w.partyOf(e.Sender) == sc.B.Idx {
+				if !sc.bobSent {
+					sc.bobAt = time.Now()
+				}
 				sc.bobSent = true
 				return false
 			}
